@@ -522,6 +522,7 @@ class ActRec:
     def __init__(self, kind, tag=""):
         self.kind = kind
         t = tag
+        self.target_pytag = z3.Int("a_target_pytag" + t)
         self.tsub = z3.Int("a_tsub" + t)
         self.thid = z3.Int("a_thid" + t)
         self.cost = z3.Real("a_cost" + t)
@@ -553,7 +554,8 @@ class ActRec:
 
     def wfa(self, sig):
         """the action is one the scenario defines (WFA): list of z3 Bool"""
-        ax = [sig.valid_addr(self.tsub, self.thid), self.prob >= 0, self.prob <= 1,
+        ax = [z3.Or(self.target_pytag == 1, self.target_pytag == 4),      # builtins.TAG_INT / TAG_NPINT
+              sig.valid_addr(self.tsub, self.thid), self.prob >= 0, self.prob <= 1,
               z3.Or(self.req == 0, self.req == 1, self.req == 2)]
         if self.kind == "NoOp":
             return [z3.BoolVal(True)]
@@ -568,7 +570,13 @@ class ActRec:
 
     def obj(self, I):
         cls = I.repo.cls("nasim.envs.action." + self.kind)
-        f = {"name": "act", "target": (mk(self.tsub, "int"), mk(self.thid, "int")),
+        # the address components are python ints or NumPy integer scalars (a parameter vector may be an integer
+        # ndarray or the tuple MultiDiscrete.sample() returns): the run-time type is a symbolic tag
+        tag = self.target_pytag
+        f = {"name": "act", "target": (SymV(self.tsub, "int", pytag=tag) if z3.is_expr(self.tsub) and not z3.is_int_value(self.tsub)
+                                       else mk(self.tsub, "int"),
+                                       SymV(self.thid, "int", pytag=tag) if z3.is_expr(self.thid) and not z3.is_int_value(self.thid)
+                                       else mk(self.thid, "int")),
              "cost": mk(self.cost, "real"), "prob": mk(self.prob, "real"), "req_access": mk(self.req, "int")}
         if self.kind == "Exploit":
             f.update(service=mk(self.srv, "name"), os=mk(self.os, "name"), access=mk(self.access, "int"))
@@ -673,6 +681,32 @@ def havoc_like(I, v, base):
         c.fresh = False
         return c
     return Opaque(base)
+
+
+def construct(I, clsq, args, kwargs=None, label=None, fallback_fields=None):
+    """harness object built by running the REAL __init__ of class clsq on the given arguments (so fields the code
+    derives in its constructor exist exactly as it computes them); fields that a method other than __init__ assigns or
+    mutates in place are then havoced and marked hidden (arbitrary point of an arbitrary history)"""
+    from pyvc.values import EngineLimit
+    cls = I.repo.cls(clsq)
+    obj = Obj(cls, {}, fresh=True, label=label or cls.name)
+    mem = I.find_member(cls, "__init__")
+    n_writes = len(I.ctx.writes)
+    try:
+        I.call_function(mem[1], [obj] + list(args), dict(kwargs or {}))
+    except EngineLimit:
+        if fallback_fields is None or not I.ext_state.get("tolerate_ctor_limit", True):
+            raise
+        obj = Obj(cls, dict(fallback_fields), fresh=True, label=label or cls.name)
+    obj.fresh = False
+    mark_preexisting(obj)
+    obj.hidden = set()
+    for name in mutable_fields(cls):
+        if name in obj.fields:
+            obj.fields[name] = havoc_like(I, obj.fields[name], f"{cls.name}_{name}")
+            obj.hidden.add(name)
+    del I.ctx.writes[n_writes:]
+    return obj
 
 
 def mark_preexisting(root, depth=4):
